@@ -34,6 +34,9 @@ def load_cfg(pid):
     with open(os.path.join(d, "check.json")) as f:
         cfg = json.load(f)
     cfg["_dir"] = d
+    # per-check go environment (e.g. GODEBUG=goindex=0 when a module-cache package is instrumented:
+    # the go command's module index ignores -overlay for the import list of module-cache packages)
+    GOENV.update(cfg.get("go_env", {}))
     return cfg
 
 
